@@ -228,8 +228,11 @@ def register(props):
                 "schemas (1-2 steps, 1-3 outputs, 0-2 signal handlers and emitters each with its own scope); real SelfSerialize -> "
                 "UnserializeScope / UnserializeSchema -> SelfSerialize, directly and through real CBOR and yaml.v3 round trips; the "
                 "description compared node by node with the model's `describe`; 8-12 generated inputs (40 % mutated) unserialized by "
-                "the original and by the rebuilt schema; 8 % of the schemas carry one of the not-describable classes; distinct by "
-                "case text; non-trivial = described and at least four different node kinds",
+                "the original and by the rebuilt schema, a fifth of the bounded numbers in them exactly on a declared bound; 8 % of "
+                "the schemas carry one of the not-describable classes; also generated: integer bounds, size bounds, int enum values "
+                "and int one-of keys at the ends of the int64 range (MaxInt64 arrives as a uint64 after CBOR), patterns that begin "
+                "or end with white space, whole scopes as one-of members (both key kinds), objects without properties built with a "
+                "nil property map; distinct by case text; non-trivial = described and at least four different node kinds",
         "assumptions": ["schemas are map-based (struct-mapped objects are not in the shared syntax); a typed string enum cannot be "
                         "described at all (known finding D69), so `erase` only drops TreatEmptyAsDefaultValue",
                         "references into other namespaces are compared after the same namespace was applied to both schemas",
